@@ -225,8 +225,8 @@ def run(rep, tier, seed, pa):
                      "ground_truth": (sorted(rng.sample(gen.ANNOTATORS[:n], rng.randrange(2, n + 1)), reverse=True) if n >= 3 and rng.random() < 0.6 else None)})
     # fast mode only windows the continuum when it is large enough (4+ annotators with 10+ units each): smaller inputs take the exact route
     for bi in range(2 if tier == "quick" else 10):
-        n = rng.choice([4, 4, 5])
-        units = gen.gen_units(rng, n, [rng.randrange(10, 15) for _ in range(n)], rng.choice(["perturbed", "perturbed", "random"]), gen.LABEL_SETS["abc"])
+        n = rng.choice([5, 5, 4])
+        units = gen.gen_units(rng, n, [rng.randrange(10, 15) if n == 5 else rng.randrange(13, 17) for _ in range(n)], rng.choice(["perturbed", "perturbed", "random"]), gen.LABEL_SETS["abc"])
         cfgs.append({"units": units, "dissim": list(rng.choice([("pos", 1.0), ("comb", 1.0, 1.0, 1.0, "abs", "abc", "asis")])), "mode": "fast",
                      "sampler": rng.choice(["stat", "int_pivot", "float_pivot"]), "n_samples": rng.choice([3, 4]), "precision": None,
                      "numpy_seed": rng.randrange(2 ** 31), "ground_truth": None, "windowed": True})
